@@ -54,3 +54,148 @@ Example c06_nonvacuous :
   dec Unsafe t 1 (put_i64 1536 ++ put_i64 1 ++ put_str [97] ++ put_i64 1 ++ [5]) = Err EInvalid /\
   dec Unsafe t 1 (put_i64 1536 ++ put_i64 (2 ^ 40) ++ put_str [97]) = Err ELimit.
 Proof. repeat split; vm_compute; reflexivity. Qed.
+
+(* ================================================================================================================ *)
+(* Block level: any byte string decoded as a whole BLOCK (block info loop, column and row counts, per column a name,  *)
+(* a hostile type STRING, the custom-serialization flag, state prefix and body), over the real instances of           *)
+(* model/Block.v's parameters (model/Results.v) and over Results.v's refined loop.  Proofs: proofs/BlockCrashProofs.v *)
+(* ================================================================================================================ *)
+From CH Require Import model.Block model.TypeStr model.Results proofs.TypeStrProofs proofs.ResultsProofs proofs.BlockCrashProofs.
+
+(* every in-memory byte string, every revision, both builds (no Bool clause), Results or Results.Auto(), every list of
+   typed targets within the premises of decode_never_crashes, any time-zone database [zone] and any ToLower [tl] *)
+Theorem decode_block_never_crashes : forall zone tl auto b v ts,
+  Forall (fun t => c16_ty (c_ty t) = true /\ widths_ok (c_ty t) = true) ts ->
+  forall s, wfl s -> is_crash (decode_block conflicts_b (infer_target zone tl) (infer_auto zone tl) auto b v ts s) = false.
+Proof. exact decode_block_nocrash_c06. Qed.
+Print Assumptions decode_block_never_crashes.
+
+(* the same under the weaker premise [blk_ty] (element widths <= 512, LowCardinality over scalars, no empty tuple,
+   FixedString size > 0) that inference preserves: [wf_ty] is NOT preserved - a hostile enum definition need not be
+   [enum_defs_ok] - so this is the form the induction over a block needs *)
+Theorem decode_block_never_crashes_gen : forall zone tl auto b v ts,
+  Forall (fun t => blk_ty (c_ty t) = true) ts ->
+  forall s, wfl s -> is_crash (decode_block conflicts_b (infer_target zone tl) (infer_auto zone tl) auto b v ts s) = false.
+Proof. exact decode_block_nocrash. Qed.
+Print Assumptions decode_block_never_crashes_gen.
+
+(* one column, strengthened: no Bool clause, weaker type premise *)
+Theorem decode_never_crashes_any_build : forall t, dty_ok t = true -> widths_ok t = true ->
+  forall b n, n <= max_rows -> forall s, wfl s -> is_crash (dec b t n s) = false.
+Proof. exact dec_nocrash_gen. Qed.
+Print Assumptions decode_never_crashes_any_build.
+
+Theorem c06_premises_imply_blk_ty : forall t, c16_ty t = true -> widths_ok t = true -> blk_ty t = true.
+Proof. exact c06_premises_blk. Qed.
+Print Assumptions c06_premises_imply_blk_ty.
+
+(* whatever ColAuto.Infer creates from a hostile type string is within the premises (proved from TypeStr.infer and
+   the generated tables: FixedString only as FixedString(8..512), LowCardinality only over scalars, ...) *)
+Theorem auto_types_within_premises : forall zone tl s t, infer_auto zone tl s = Some t -> blk_ty t = true.
+Proof. exact auto_ty_ok. Qed.
+Print Assumptions auto_types_within_premises.
+
+(* the Inferable hook of a typed target (enum definitions, DateTime/DateTime64 parameters, Array/Map/Tuple/Named
+   forwarding) keeps the premises and the Bool clause *)
+Theorem infer_target_preserves_premises : forall zone tl t s t', infer_target zone tl t s = Some t' ->
+  (blk_ty t = true -> blk_ty t' = true) /\ (forall b, okb b t' = okb b t).
+Proof. exact infer_target_keeps_premises. Qed.
+Print Assumptions infer_target_preserves_premises.
+
+(* ... and, failed or not, leaves the contents of the column object with the same meaning *)
+Theorem infer_keeps_contents : forall zone tl t s,
+  let t' := fst (infer_st zone tl t s) in
+  (forall d, rows t' d = rows t d) /\ (forall d i, row t' d i = row t d i) /\
+  (dty_ok t = true -> forall d, good t d -> good t' d) /\
+  (lc_elem t = true -> forall v, has_ty t' v = has_ty t v).
+Proof. exact infer_st_dkeep. Qed.
+Print Assumptions infer_keeps_contents.
+
+(* the type-string functions called on the hostile strings neither panic nor exhaust their fuel (C19, cited) *)
+Theorem block_type_functions_never_panic : forall zone tl s,
+  is_crash (infer_col zone tl s) = false /\ infer_col zone tl s <> Err EFuel /\
+  (forall c, exists r, conflicts_r s c = rok r) /\ (forall t, snd (infer_st zone tl t s) <> ICrash).
+Proof. exact block_type_functions_total. Qed.
+Print Assumptions block_type_functions_never_panic.
+
+(* termination is by structure, not by fuel: for every input and every list of targets *)
+Theorem decode_block_never_fuel : forall zone tl auto b v ts s,
+  decode_block conflicts_b (infer_target zone tl) (infer_auto zone tl) auto b v ts s <> Err EFuel.
+Proof. exact decode_block_nofuel_all. Qed.
+Print Assumptions decode_block_never_fuel.
+
+(* an accepted block that is not the end marker: counts within the caps, every target within the premises and (modulo
+   the Bool clause) good, reporting the block's row count, every row readable; as many targets as columns, names
+   sticky, Bool clause unchanged.  Without targets the headers are skipped (then c = 0 or r = 0). *)
+Theorem decoded_block_consistent : forall zone tl auto b v ts s i c r ts' rest,
+  wfl s -> Forall (fun t => blk_ty (c_ty t) = true) ts ->
+  decode_block conflicts_b (infer_target zone tl) (infer_auto zone tl) auto b v ts s = Ok (i, c, r, ts') rest ->
+  ((c =? 0) && (r =? 0))%Z = false ->
+  (0 <= c <= Consts.maxColumnsInBlock)%Z /\ (0 <= r <= Consts.maxRowsInBLock)%Z /\
+  Forall (fun t' => blk_ty (c_ty t') = true /\
+                    (okb b (c_ty t') = true ->
+                     good (c_ty t') (c_data t') /\ rows (c_ty t') (c_data t') = Z.to_N r /\ readable (c_ty t') (c_data t'))) ts' /\
+  match ts with
+  | [] => if auto then Z.of_nat (length ts') = c else ts' = [] /\ (c = 0 \/ r = 0)%Z
+  | _ => Z.of_nat (length ts') = c /\
+         Forall2 (fun t t' => (c_name t <> [] -> c_name t' = c_name t) /\ okb b (c_ty t') = okb b (c_ty t)) ts ts'
+  end.
+Proof. exact decode_block_consistent. Qed.
+Print Assumptions decoded_block_consistent.
+
+(* with the premises of decoded_column_consistent on the targets *)
+Theorem decoded_block_consistent_typed : forall zone tl auto b v ts s i c r ts' rest,
+  wfl s -> Forall (fun t => c16_ty (c_ty t) = true /\ widths_ok (c_ty t) = true /\ okb b (c_ty t) = true) ts -> ts <> [] ->
+  decode_block conflicts_b (infer_target zone tl) (infer_auto zone tl) auto b v ts s = Ok (i, c, r, ts') rest ->
+  ((c =? 0) && (r =? 0))%Z = false ->
+  Z.of_nat (length ts') = c /\
+  Forall2 (fun t t' => (c_name t <> [] -> c_name t' = c_name t) /\
+                       good (c_ty t') (c_data t') /\ rows (c_ty t') (c_data t') = Z.to_N r /\ readable (c_ty t') (c_data t')) ts ts'.
+Proof. exact decode_block_consistent_c06. Qed.
+Print Assumptions decoded_block_consistent_typed.
+
+(* the refined loop of model/Results.v (typed, AutoResult and Results.Auto() targets; the state after a FAILURE is part
+   of the result).  Only the TYPES of the targets are constrained on entry - their contents may be what an earlier failed
+   block left.  No crash, no fuel; an accepted block leaves every target usable (invariant, every Row(i) below Rows()
+   readable, modulo the Bool clause) and reporting the block's row count; after a failure the targets that were usable
+   still are - a target whose Infer or type check failed keeps readable contents under its new parameters - except the one
+   whose DecodeState / DecodeColumn failed: it holds the partially decoded column of model/DecPart.v, which is not
+   readable in general (C18: ResultsProofs2.residue_unreadable_in_general; readable for flat types: residue_flat) *)
+Theorem decode_block_refined_safe : forall zone tl auto b v ts s, wfl s -> targets_ty_ok ts ->
+  let o := decode_block_st zone tl auto b v ts s in
+  targets_ty_ok (bo_targets o) /\ bout_fine (bo_out o) /\
+  match bo_out o with
+  | BOk rest => wfl rest /\
+                (((bo_cols o =? 0) && (bo_rows o =? 0))%Z = false ->
+                 targets_ok b (bo_targets o) /\ targets_rows b (Z.to_N (bo_rows o)) (bo_targets o))
+  | BFail _ k _ => targets_ok b ts -> targets_ok b (bo_targets o) \/ all_but_failing b k (bo_targets o)
+  | BCrash _ => True
+  end.
+Proof. exact decode_block_st_safe. Qed.
+Print Assumptions decode_block_refined_safe.
+
+(* any sequence of hostile blocks against the same reused targets: no crash, no fuel, and every accepted block leaves all
+   targets usable with its row count, whatever the failed blocks before it left behind *)
+Theorem block_sequence_safe : forall zone tl auto b v blocks ts, Forall wfl blocks -> targets_ty_ok ts ->
+  Forall (block_out_safe b) (run_blocks zone tl auto b v ts blocks).
+Proof. exact run_blocks_safe. Qed.
+Print Assumptions block_sequence_safe.
+
+(* non-vacuity at block level (Results.Auto(), default build, revision 54460): a block whose second column declares
+   Array(LowCardinality(FixedString(16))) with a dictionary of 2^40 entries is refused by the row check with nothing
+   allocated; hostile type strings are refused without a crash; 200 balanced and 10 000 unbalanced nested Array( too *)
+Example c06_block_nonvacuous :
+  c06x_auto c06x_hostile_block = Err ELimit /\
+  infer_auto no_zone (fun x => x) (s2b "Array(LowCardinality(FixedString(16)))") = Some (TArr (TLowCard (TFix (s2b "FixedString(16)") 16))) /\
+  c06x_auto (c06x_type_block (s2b "Enum8('a'=1")) = Err EInvalid /\
+  c06x_auto (c06x_type_block (s2b "FixedString(0)")) = Err EInvalid /\
+  c06x_auto (c06x_type_block (s2b "FixedString(99999999999999999999)")) = Err EInvalid /\
+  c06x_auto (c06x_type_block (s2b "DateTime64(9999999999)")) = Err EInvalid /\
+  c06x_auto (c06x_type_block (s2b "Tuple()")) = Err EInvalid /\
+  c06x_auto (c06x_type_block (c06x_nested 200 [])) = Err EInvalid /\
+  c06x_auto (c06x_type_block (List.concat (repeat (s2b "Array(") (100 * 100)))) = Err EInvalid /\
+  (exists i ts rest, c06x_auto (c06x_type_block (s2b "Array(Nullable(UInt8))")) = Ok (i, 1%Z, 1%Z, ts) rest /\ length ts = 1%nat).
+Proof.
+  do 9 (split; [vm_compute; reflexivity|]).
+  eexists; eexists; eexists. split; vm_compute; reflexivity.
+Qed.
